@@ -66,4 +66,44 @@ AlphaC05 == {E(t, m, <<>>) : t \in {1, 2, 3}, m \in {"OHp", "OHr", "OHe"}}
             \cup {E(t, "OAs", <<c>>) : t \in {1, 3}, c \in {0, 1, -1, 7}}
             \cup {E(1, "OAs", <<>>), E(1, "OAr", <<0>>)}
             \cup {E(t, "OAr", <<c, tid>>) : t \in {1, 3}, c \in {0, -1}, tid \in {101, 102, 103, 201, 999}}
+
+(* ---- C06: view consistency. 2 threads, 2 CPUs + vCPU; one value-changing
+   event pair per tracking mode: ovni flush (ANY), kernel context switch
+   (ANY, stack), MPI function (RUN), NODES subsystem (ACT) ---- *)
+G(th, mc, m) == [th |-> th, m |-> m, mc |-> mc, a |-> <<>>, j |-> FALSE]
+SysC06 == [threads |-> <<Th(101, 1001, 1, 1), Th(102, 1001, 1, 1)>>,
+           cpus |-> <<Cpu(1, 0, 10, FALSE), Cpu(1, 1, 11, FALSE), Cpu(1, -1, -1, TRUE)>>,
+           marks |-> <<>>, models |-> {"O", "K", "M", "D"}]
+ThreadEvs(T) == {E(t, m, <<>>) : t \in T, m \in {"OHp", "OHr", "OHc", "OHw", "OHe"}}
+AlphaC06 == ThreadEvs({1, 2})
+            \cup {E(1, "OHx", <<0, 101, 7>>), E(2, "OHx", <<1, 101, 7>>), E(2, "OHx", <<0, 101, 7>>)}
+            \cup {E(t, "OAs", <<c>>) : t \in {1, 2}, c \in {0, 1}}
+            \cup {E(1, "OAr", <<1, 102>>), E(2, "OAr", <<0, 101>>)}
+            \cup {G(t, "O", m) : t \in {1, 2}, m \in {"OF[", "OF]"}}
+            \cup {G(t, "M", m) : t \in {1, 2}, m \in {"MUi", "MUI"}}
+            \cup {G(t, "D", m) : t \in {1, 2}, m \in {"DR[", "DR]"}}
+            \cup {G(1, "K", m) : m \in {"KCO", "KCI"}}
+
+(* ---- C08: nesting. 1 thread + a bystander, three region kinds of a model;
+   the bystander checks that stacks are per thread ---- *)
+SysC08(models) == [threads |-> <<Th(101, 1001, 1, 1), Th(102, 1001, 1, 1)>>,
+                   cpus |-> <<Cpu(1, 0, 10, FALSE), Cpu(1, 1, 11, FALSE), Cpu(1, -1, -1, TRUE)>>,
+                   marks |-> <<>>, models |-> models]
+Base08 == {E(1, "OHx", <<0, 101, 7>>), E(2, "OHx", <<1, 101, 7>>), E(1, "OHp", <<>>), E(1, "OHr", <<>>),
+           E(1, "OHc", <<>>), E(1, "OHe", <<>>), E(2, "OHe", <<>>)}
+Regions(mc, T, evs) == {G(t, mc, m) : t \in T, m \in evs}
+SysC08D == SysC08({"O", "D"})
+AlphaC08D == Base08 \cup Regions("D", {1}, {"DR[", "DR]", "DU[", "DU]", "DW[", "DW]"}) \cup Regions("D", {2}, {"DR[", "DR]"})
+SysC08M == SysC08({"O", "M"})
+AlphaC08M == Base08 \cup Regions("M", {1}, {"MUi", "MUI", "MS[", "MS]", "MAg", "MAG"}) \cup Regions("M", {2}, {"MUi", "MUI"})
+SysC08T == SysC08({"O", "T"})
+AlphaC08T == Base08 \cup Regions("T", {1}, {"TCi", "TCI", "TGc", "TGC", "TQa", "TQA"}) \cup Regions("T", {2}, {"TCi", "TCI"})
+SysC08P == SysC08({"O", "P"})
+AlphaC08P == Base08 \cup Regions("P", {1}, {"PBb", "PBB", "PWs", "PWS", "PCf", "PCF"}) \cup Regions("P", {2}, {"PBb", "PBB"})
+SysC08V == SysC08({"O", "V"})
+AlphaC08V == Base08 \cup Regions("V", {1}, {"VSh", "VSH", "VAc", "VAC", "VMa", "VMA"}) \cup Regions("V", {2}, {"VSh", "VSH"})
+SysC086 == SysC08({"O", "6"})
+AlphaC086 == Base08 \cup Regions("6", {1}, {"6C[", "6C]", "6U[", "6U]", "6Hw", "6HW"}) \cup Regions("6", {2}, {"6C[", "6C]"})
+SysC08K == SysC08({"O", "K"})
+AlphaC08K == Base08 \cup Regions("K", {1, 2}, {"KCO", "KCI"}) \cup Regions("O", {1}, {"OF[", "OF]"})
 =============================================================================
